@@ -19,6 +19,8 @@ def main():
          'rank_promotion': str(jax.config.jax_numpy_rank_promotion), 'disable_jit': bool(jax.config.jax_disable_jit)}
   rng = random.Random(seed)
   viol, n = [], 0
+  import hashlib
+  dig = hashlib.sha1()
   if which == 'c18':
     from harness import c18 as h
     cases = [h._r(shape, rng) for shape in ([], [1], [3], [5, 7], [2, 3, 4], [129], [33], [6], [127])]
@@ -41,11 +43,12 @@ def main():
     n += 1
     try:
       obs = h.run(c)
+      dig.update(json.dumps(obs, sort_keys=True, default=str).encode())
       for k, m in h.oracle(c, obs):
         viol.append([k, m, c])
     except Exception as ex:  # pylint: disable=broad-except
       viol.append(['exception', f'{type(ex).__name__}: {str(ex)[:200]}', c])
-  print('CFGRESULT ' + json.dumps({'n': n, 'config': cfg, 'violations': viol[:20]}))
+  print('CFGRESULT ' + json.dumps({'n': n, 'config': cfg, 'violations': viol[:20], 'digest': dig.hexdigest()}))
 
 
 if __name__ == '__main__':
